@@ -1223,7 +1223,7 @@ def specs(tier: str):
     if quick:
         plan = [("two", "ustar", "ets_tree", "q", 2, False, 1)]
     else:
-        plan = [("two", "ustar", "ets_tree", "all", 2, True, 2), ("long", "gnu", "generic", "f", 4, True, 1), ("long", "pax", "ets_tree", "f", 4, True, 1)]
+        plan = [("two", "ustar", "ets_tree", "all", 2, True, 4), ("long", "gnu", "generic", "f", 4, True, 1), ("long", "pax", "ets_tree", "f", 4, True, 1)]
     for kind, fmt, driver, table, nmask, split, nranges in plan:
         hb = header_blocks(kind, fmt)
         npos = len(POS_TABLES[table])
